@@ -22,7 +22,12 @@ class SelectNode:
         """
         if self.options:
             for option in self.options:
-                if option.value==self.value:
+                a, b = getattr(option.value,'value',None), getattr(self.value,'value',None)
+                if type(a) is int and type(b) is int and option.value.unit==self.value.unit:
+                    # whole numbers in one unit are told apart exactly; the tolerance of '==' is meant for measured values
+                    if a==b:
+                        return True
+                elif option.value==self.value:
                     return True
             else:
                 options = [o.value for o in self.options]
